@@ -240,11 +240,11 @@ class CuboidalDescription(ShapeDescriptionBase):
         super().__init__()
         # Values of the formulas at an aspect ratio of 1. The public functions return the
         # ...Min constants for ar <= 1, so they cannot be used to compute them: the inner
-        # formulas are evaluated instead (the kinetic factor is 0/0 at exactly 1 and is
-        # evaluated just above it)
+        # formulas are evaluated instead. The kinetic factor is 0/0 at exactly 1; its limit
+        # for ar -> 1 is 0.1 + 1.736 / 2 (sqrt(ar^2 - 1) / log(...) -> 1/2)
         one = np.ones(1)
         self.eqRadiusFactorMin = self._eqRadius(one)[0]
-        self.kineticFactorMin = self.kineticFactor(1.0001)
+        self.kineticFactorMin = 0.968
         self.thermoFactorMin = self._thermoFactor(one)[0]
 
     def _eqRadius(self, ar):
